@@ -936,9 +936,22 @@ def play(world, ops, by):
                             break
                 LOG("quiescent", gen=world.gen)
             elif kind == "expect_end":
-                # bounded-progress restatement of "the run ends": generous patience, judged by the oracle
-                if not world.accept_done.wait(op[1]):
-                    LOG("accept-still-running", gen=world.gen, patience=op[1])
+                # bounded-progress restatement of "the run ends": generous patience, judged by the oracle. The patience counts
+                # from the moment the end was asked for (a stop request, a failure, an interrupt) - on a busy machine the payload
+                # that is to ask for it may itself be started late; how long that takes is not what is judged here
+                def asks(e):
+                    return e.get("gen") == world.gen and ((e["kind"] == "call" and e.get("op") == "shutdown") or e["kind"] in ("fail", "mark"))
+
+                began = time.monotonic()
+                asked = None
+                while asked is None and not world.accept_done.is_set() and time.monotonic() - began < 30:
+                    asked = LOG.wait_for(asks, 0.2)
+                if asked is not None:
+                    left = op[1] - ((time.monotonic() - LOG.t0) - asked["t"])
+                    if not world.accept_done.wait(max(left, 0.0)):
+                        LOG("accept-still-running", gen=world.gen, patience=op[1], since=asked["kind"])
+                elif not world.accept_done.is_set():
+                    LOG("accept-still-running", gen=world.gen, patience=op[1], since=None)
             else:
                 raise AssertionError("unknown driver op %r" % (op,))
         except BaseException as err:  # noqa: B036
